@@ -133,6 +133,34 @@ func (e *Engine) strIntrinsic(fn *ssa.Function, full string, args []Value) (Valu
 			cnt++
 			start = i + len(sub.bytes)
 		}
+	case "strings.TrimLeft", "strings.TrimRight", "strings.Trim":
+		// cutset semantics, bytewise (ASCII cutsets)
+		sv, cut := args[0].(StrVal), args[1].(StrVal)
+		noAtom(sv, cut)
+		for _, c := range cut.bytes {
+			if !c.konst || c.iv >= 128 {
+				unsupported("%s with a symbolic or non-ASCII cutset", full)
+			}
+		}
+		member := func(b *Term) *Term {
+			r := tFalse
+			for _, c := range cut.bytes {
+				r = tOr(r, tEq(b, c))
+			}
+			return r
+		}
+		lo, hi := 0, len(sv.bytes)
+		if full != "strings.TrimRight" {
+			for lo < hi && e.decide(member(sv.bytes[lo])) {
+				lo++
+			}
+		}
+		if full != "strings.TrimLeft" {
+			for hi > lo && e.decide(member(sv.bytes[hi-1])) {
+				hi--
+			}
+		}
+		return StrVal{bytes: sv.bytes[lo:hi]}, true
 	case "strings.Clone", "internal/stringslite.Clone":
 		return args[0], true
 	case "strings.Fields":
